@@ -68,7 +68,12 @@ def run(prop, tier, seed, verdict, tree, own_evidence=True):
             if len(samples) < 3:
                 samples.extend(r.samples[:1])
     cov = verdict.coverage
-    n_eval = int(stats.get("dispatch_checks", 0)) + int(stats.get("replay_dispatch_checks", 0)) if prop == "C14" else int(stats.get("load_pairs_checked", 0))
+    if prop == "C14":
+        n_eval = int(stats.get("dispatch_checks", 0)) + int(stats.get("replay_dispatch_checks", 0))
+    elif prop == "C13":
+        n_eval = int(stats.get("index_round_trips", 0))
+    else:
+        n_eval = int(stats.get("load_pairs_checked", 0))
     cov["evaluations"] = int(cov.get("evaluations", 0)) + n_eval
     cov["distinct_nontrivial"] = int(cov.get("distinct_nontrivial", 0)) + len(sigs)
     cov["samples"] = (cov.get("samples") or []) + samples
@@ -84,8 +89,13 @@ def run(prop, tier, seed, verdict, tree, own_evidence=True):
         cov["exhaustive"] = tier == "thorough"
         if tier == "thorough":
             cov["exhaustive_subspace"] = "every N in 1..255 (headless) and every odd N (root head), every k < N as destination in three visiting orders"
+    elif prop == "C13":
+        cov["rule"] = (cov.get("rule", "") + " widemon (last clause): a case = one (N, root kind, state index k): the machine with N states saves with k active "
+                       "(the index is written with the width the machine derived from N) and another instance loads it; compared: the loaded index, "
+                       "distinctness of the encodings of all indices, SerialBuffer::BIT_CAPACITY against N").strip()
+        cov["wide_sizes_exhaustive"] = tier == "thorough"
     else:
         cov["rule"] = (cov.get("rule", "") + " widemon: a case = one (N, saver activity, loader activity) save/load pair incl. inactive machines; compared: "
-                       "loader callback trace, resulting activity, canary bytes, bits beyond capacity, canonical bytes").strip()
+                       "loader callback trace, resulting activity, canary bytes (four patterns, around the saver's and the loader's buffer), bits beyond capacity, canonical bytes; plus round trips through an exact-size heap buffer").strip()
         cov["wide_all_pairs_for"] = "every size" if tier == "thorough" else "N <= 33 (larger sizes: every saver activity x 16 loader states)"
     return stats
